@@ -1,8 +1,11 @@
 from pyvc.runner import register_modules
 
-register_modules("C03", "bounded.C03_api")
+register_modules("C03", "contracts.C03_lookup", "bounded.C03_api")
 LEVEL = "other"
-EXPLANATION = ("Exhaustive tables over the finite catalogue (134 functions, 124 data items, YAML) plus an audit that ties every data item "
+EXPLANATION = ("(VC, z3) StreamsFunctions.function for ALL integers (stream, function) over the shipped catalogue: exactly the class with these numbers, "
+               "None when there is none, never ambiguous; StreamsFunctions.decode: an object of exactly that class decoded from exactly the body, "
+               "ValueError exactly for uncatalogued numbers (object construction and value decoding are call-outs: C01/C02/C19).  "
+               "Exhaustive tables over the finite catalogue (134 functions, 124 data items, YAML) plus an audit that ties every data item "
                "to the codec functions proved under C01/C02, plus a bounded generated round trip through the public API for all 134 functions.")
 ASSUMPTIONS = ["yaml.safe_load", "leaf codec contracts: C01/C02; structure shapes: C19",
                "plain-value kinds follow the E5 format (A/J str, B bytes, BOOLEAN bool, U*/I* int, F* float, L list/dict); conversions the library additionally offers are not judged",
